@@ -87,7 +87,9 @@ OPS = [
     ('Channel.exchange_delete_nowait', 'Channel', 'exchange_delete_nowait', [S('exchange'), Bv('if_unused')], 'Exchange', 'Delete', {'ticket': C(0), 'exchange': A('exchange'), 'if_unused': A('if_unused'), 'nowait': C(True)}, None),
     ('Channel.ack_all', 'Channel', 'ack_all', [], 'Basic', 'Ack', {'delivery_tag': C(0), 'multiple': C(True)}, None),
     ('Channel.nack_all', 'Channel', 'nack_all', [Bv('requeue')], 'Basic', 'Nack', {'delivery_tag': C(0), 'multiple': C(True), 'requeue': A('requeue')}, None),
-    ('Channel.close', 'Channel', 'close_impl', [], 'Channel', 'Close', {'reply_code': C(0), 'reply_text': ('str', ''), 'class_id': C(0), 'method_id': C(0)}, ('Channel', 'CloseOk')),
+    ('Channel.close_impl', 'Channel', 'close_impl', [], 'Channel', 'Close', {'reply_code': C(0), 'reply_text': ('str', ''), 'class_id': C(0), 'method_id': C(0)}, ('Channel', 'CloseOk')),
+    # the public close consumes the channel: its drop glue runs afterwards and must not send a second Close, whatever the reply was
+    ('Channel.close', 'ChannelV', 'close', [], 'Channel', 'Close', {'reply_code': C(0), 'reply_text': ('str', ''), 'class_id': C(0), 'method_id': C(0)}, ('Channel', 'CloseOk')),
     # wrappers on Queue / Exchange: the object's own name goes where the AMQP field says
     ('Queue.get', 'Queue', 'get', [Bv('no_ack')], 'Basic', 'Get', {'ticket': C(0), 'queue': A('self.name'), 'no_ack': A('no_ack')}, ('GET',)),
     ('Queue.consume', 'Queue', 'consume', [CO], 'Basic', 'Consume',
@@ -211,6 +213,8 @@ def receiver(prog, st, b, kind, info):
     ch = Ref(st.roots['ch'])
     if kind == 'Channel':
         return ch
+    if kind == 'ChannelV':
+        return st.roots['ch'].value
     nm = sym('self.name', StrSort)
     b.h['self.name'] = nm
     if kind in ('Queue', 'QueueV'):
@@ -250,7 +254,7 @@ def body(ctx):
 
 
 def find_fn(prog, recv, fn):
-    ty = {'QueueV': 'Queue', 'ExchangeV': 'Exchange', 'DeliveryV': 'Delivery'}.get(recv, recv)
+    ty = {'QueueV': 'Queue', 'ExchangeV': 'Exchange', 'DeliveryV': 'Delivery', 'ChannelV': 'Channel'}.get(recv, recv)
     return prog.method(ty, fn)
 
 
@@ -351,7 +355,7 @@ def field_matches(v, spec, b):
 
 def missing_ops(ctx, prog):
     """every public operation that issues a method must be in the table (a new or renamed operation is noticed)"""
-    covered = {(('Queue' if r == 'QueueV' else 'Exchange' if r == 'ExchangeV' else 'Delivery' if r == 'DeliveryV' else r), f) for (_, r, f, *_rest) in OPS}
+    covered = {(('Queue' if r == 'QueueV' else 'Exchange' if r == 'ExchangeV' else 'Delivery' if r == 'DeliveryV' else 'Channel' if r == 'ChannelV' else r), f) for (_, r, f, *_rest) in OPS}
     covered |= {('Channel', x) for x in ('new', 'close', 'channel_id', 'call', 'call_nowait', 'basic_publish', 'listen_for_publisher_confirms', 'listen_for_returns', 'basic_ack', 'basic_nack', 'basic_reject', 'basic_cancel', 'drop')}
     covered |= {('Queue', x) for x in ('new', 'name', 'declared_message_count', 'declared_consumer_count')} | {('Exchange', x) for x in ('new', 'direct', 'name', 'publish')}
     covered |= {('Consumer', x) for x in ('new', 'consumer_tag', 'receiver', 'drop')} | {('Delivery', x) for x in ('new', 'new_get_ok', 'delivery_tag')}
@@ -452,11 +456,14 @@ def replay_op(ctx, prog, op, b, s, inf, claim, label):
     rargs = [rust_arg(a, b, nm) for a in args]
     if any(x is None for x in rargs):
         return False
+    forget_ch = 'std::mem::forget(ch); '
     if recv == 'Channel':
         call = f"ch.{'close' if fn == 'close_impl' else fn}({', '.join(rargs)})" if fn != 'close_impl' else None
         if call is None:
             return False
         pre = ''
+    elif recv == 'ChannelV':
+        pre, call, forget_ch = '', 'ch.close()', ''    # consumes the channel: its Drop runs inside the call
     elif recv in ('Queue', 'QueueV'):
         pre = f"let q = crate::Queue::new(&ch, {rs_str(nm.s(b.h['self.name']))}.to_string(), None, None);"
         call = f"q.{fn}({', '.join(rargs)})"
@@ -517,13 +524,14 @@ fn verif_replay_c12() {{
     let (other, _orx, _otx) = mk_channel({cid}, 4088);
     let _ = tx.send(Err(crate::Error::ClientException));
     let _ = _otx.send(Err(crate::Error::ClientException));
-    let r = std::panic::catch_unwind(std::panic::AssertUnwindSafe(|| {{ {pre} let _ = {call}; }}));
+    drop(tx); drop(_otx);   // a second, unexpected wait for a reply fails instead of blocking
+    let r = std::panic::catch_unwind(std::panic::AssertUnwindSafe(move || {{ {{ {pre} let _ = {call}; }} {forget_ch}}}));
     let got = raw_of(&rx);
     let want: Vec<Vec<u8>> = if {'true' if want_nothing else 'false'} {{ vec![] }} else {{ vec![enc(&{want_frame})] }};
     if r.is_err() != {'true' if want_panic else 'false'} || got != want {{
         println!("VERIF-REPLAY-VIOLATION api-method:{name} panicked={{}} got={{:?}} want={{:?}}", r.is_err(), got, want);
     }} else {{ println!("VERIF-REPLAY-OK"); }}
-    std::mem::forget(ch); std::mem::forget(other);
+    std::mem::forget(other);
 }}
 '''
     ctx.report(f"api-method:{name}", f"{name}: the method handed to the I/O thread differs from what the arguments describe ({label})", {'operation': name, 'expected_frame': want_frame, 'expected_panic': want_panic}, test,
